@@ -57,6 +57,31 @@ CallsListed(f) == \A p \in f.pars : p.calls \subseteq Listed
 CascadeNested(f) == \A k \in 1..(Len(f.cascade) - 1) : f.cascade[k+1] \subseteq f.cascade[k]
 Complete(f) == RequiredSheets \subseteq f.sheets /\ RequiredColumns \subseteq f.columns
 DataComplete(f) == f.datadefects = {}           \* the databook holds every required table, value, population and the framework's units
+\* ---- timed transitions (duration groups): f.timed is the set of parameters marked as driving a timed outflow ----
+TimedOf(f) == IF "timed" \in DOMAIN f THEN f.timed ELSE {}
+CompNames(f) == {c.name : c \in f.comps}
+TimedOut(f, c) == {t[3] : t \in {u \in f.trans : u[1] = c /\ u[3] \in TimedOf(f)}}
+GroupOf(f, c) == IF TimedOut(f, c) = {} THEN "" ELSE CHOOSE p \in TimedOut(f, c) : TRUE       \* the duration group of a compartment is named after its timed outflow
+TimedFormat(f) == \A p \in f.pars : p.name \in TimedOf(f) => p.units = "duration" /\ p.name \notin f.targetable
+TimedOutflows(f) == \A c \in f.comps : Cardinality(TimedOut(f, c.name)) <= 1 /\ (TimedOut(f, c.name) # {} => c.kind = "normal")
+NoFlushIntoOwnGroup(f) == \A t \in f.trans : (t[3] \in TimedOf(f) /\ t[2] \in CompNames(f)) => GroupOf(f, t[2]) # t[3]      \* whatever the order of the rows
+\* the ordinary compartments that feed junction j directly or through other junctions (with the parameter of the link leaving them), and those it feeds
+RECURSIVE JUp(_,_,_)
+JUp(f, J, n) == IF n = 0 THEN J ELSE JUp(f, J \cup {t[1] : t \in {u \in f.trans : u[2] \in J /\ u[1] \in Junctions(f)}}, n - 1)
+RECURSIVE JDown(_,_,_)
+JDown(f, J, n) == IF n = 0 THEN J ELSE JDown(f, J \cup {t[2] : t \in {u \in f.trans : u[1] \in J /\ u[2] \in Junctions(f)}}, n - 1)
+Feeders(f, j) == {<<t[1], t[3]>> : t \in {u \in f.trans : u[2] \in JUp(f, {j}, Cardinality(f.comps)) /\ u[1] \in CompNames(f) \ Junctions(f)}}
+Fed(f, j) == {t[2] : t \in {u \in f.trans : u[1] \in JDown(f, {j}, Cardinality(f.comps)) /\ u[2] \in CompNames(f) \ Junctions(f)}}
+UpGroups(f, j) == {GroupOf(f, x[1]) : x \in Feeders(f, j)} \ {""}
+UpAttach(f, j) == {GroupOf(f, x[1]) : x \in {y \in Feeders(f, j) : y[2] \notin TimedOf(f)}} \ {""}       \* groups whose elapsed time is carried into j (ordinary links, not the flush)
+DownGroups(f, j) == {GroupOf(f, c) : c \in Fed(f, j)} \ {""}
+\* a junction that carries elapsed time from a group back into that group belongs to the group: then all its inputs are duration-preserving links
+\* from that group and no other group is downstream; any other junction must not connect a group with itself
+JunctionTimed(f) == \A j \in Junctions(f) :
+   IF UpAttach(f, j) \cap DownGroups(f, j) # {}
+   THEN \E g \in UpAttach(f, j) : (\A x \in Feeders(f, j) : GroupOf(f, x[1]) = g /\ x[2] \notin TimedOf(f)) /\ DownGroups(f, j) = {g}
+   ELSE UpGroups(f, j) \cap DownGroups(f, j) = {}
+TimedOK(f) == TimedFormat(f) /\ TimedOutflows(f) /\ NoFlushIntoOwnGroup(f) /\ JunctionTimed(f)
 \* ---- program book rules ----
 PBRefs(f) == /\ f.pb.tpops \subseteq f.datapops /\ f.pb.tcomps \subseteq {c.name : c \in f.comps}
              /\ f.pb.epars \subseteq f.targetable /\ f.pb.epops \subseteq f.datapops
@@ -65,10 +90,16 @@ PBUnique(f) == f.pb.dupprogs = 0 /\ "all" \notin f.pb.progs
 PBTargets(f) == f.pb.untargeted = {}            \* every program targets at least one population and one compartment
 PBComplete(f) == f.pb.defects = {}              \* unit cost and spending for every program, a baseline wherever outcomes are given, one currency, a known coverage interaction, all sheets
 ValidPB(f) == PBRefs(f) /\ PBUnique(f) /\ PBTargets(f) /\ PBComplete(f)
-Valid(f) == CharacsAcyclic(f) /\ JunctionsAcyclic(f) /\ ResidualOK(f) /\ ValidPB(f) /\ DataComplete(f) /\ CodeNamesUnique(f) /\ DisplayNamesUnique(f) /\ NoReserved(f) /\ RefsDefined(f) /\ LinkUnits(f) /\ NoCycles(f) /\ CallsListed(f) /\ CascadeNested(f) /\ Complete(f)
+Valid(f) == TimedOK(f) /\ CharacsAcyclic(f) /\ JunctionsAcyclic(f) /\ ResidualOK(f) /\ ValidPB(f) /\ DataComplete(f) /\ CodeNamesUnique(f) /\ DisplayNamesUnique(f) /\ NoReserved(f) /\ RefsDefined(f) /\ LinkUnits(f) /\ NoCycles(f) /\ CallsListed(f) /\ CascadeNested(f) /\ Complete(f)
 
 \* ---- mutations (each keeps everything else of the file) ----
 Par(n, u, d, c) == [name |-> n, units |-> u, deps |-> d, calls |-> c]
+\* a second compartment rcv2 in the duration group of rcv (same timed outflow parameter); a junction jt inside the group: rcv -mv-> jt -one-> rcv2
+TGroup2(f) == [f EXCEPT !.comps = @ \cup {[name |-> "rcv2", kind |-> "normal"]}, !.trans = @ \cup {<<"rcv2", "sus", "wane">>, <<"rcv2", "dead", "mort">>}]
+TJunction(f) == [TGroup2(f) EXCEPT !.comps = @ \cup {[name |-> "jt", kind |-> "junction"]}, !.pars = @ \cup {Par("mv", "rate", {}, {}), Par("one", "proportion", {}, {})},
+                                   !.trans = @ \cup {<<"rcv", "jt", "mv">>, <<"jt", "rcv2", "one">>}]
+TimedMutations == {"t_none", "t_timed_rate", "t_timed_targetable", "t_two_timed_outflows", "t_timed_from_junction", "t_timed_from_source", "t_group_two_comps", "t_flush_into_own_group_a",
+                   "t_flush_into_own_group_b", "t_junction_in_group", "t_junction_mixed_inflows", "t_junction_mixed_outflows", "t_junction_flush_back", "t_junction_flush_out"}
 Mutate(f, m) ==
   CASE m = "none" -> f
     [] m = "add_output_parameter" -> [f EXCEPT !.pars = @ \cup {Par("extra", "", {"sus"}, {"max"})}]
@@ -103,6 +134,23 @@ Mutate(f, m) ==
     [] m = "blank_optional_column" -> f                       \* an optional column that is present but empty changes nothing
     [] m = "delete_optional_sheet" -> [f EXCEPT !.sheets = @ \ {"databook pages"}]
     [] m \in {"databook_delete_table", "databook_unit_mismatch", "databook_unit_mismatch_compartment", "databook_blank_required_values", "databook_unknown_population", "databook_missing_population_row", "databook_legacy_missing_population_row", "databook_delete_state_sheet"} -> [f EXCEPT !.datadefects = @ \cup {m}]
+    \* ---- timed structures (base "sirt": the immunity of rcv lasts for the duration wane) ----
+    [] m = "t_none" -> f
+    [] m = "t_timed_rate" -> [f EXCEPT !.timed = @ \cup {"rec"}]
+    [] m = "t_timed_targetable" -> [f EXCEPT !.targetable = @ \cup {"wane"}]
+    [] m = "t_two_timed_outflows" -> [f EXCEPT !.pars = @ \cup {Par("wane2", "duration", {}, {})}, !.timed = @ \cup {"wane2"}, !.trans = @ \cup {<<"rcv", "inf", "wane2">>}]
+    [] m = "t_timed_from_junction" -> [f EXCEPT !.pars = @ \cup {Par("dj", "duration", {}, {})}, !.timed = @ \cup {"dj"}, !.trans = @ \cup {<<"jn", "sus", "dj">>}]
+    [] m = "t_timed_from_source" -> [f EXCEPT !.pars = @ \cup {Par("dj", "duration", {}, {})}, !.timed = @ \cup {"dj"}, !.trans = @ \cup {<<"src", "inf", "dj">>}]
+    [] m = "t_group_two_comps" -> [TGroup2(f) EXCEPT !.pars = @ \cup {Par("mv", "rate", {}, {})}, !.trans = @ \cup {<<"rcv", "rcv2", "mv">>}]
+    [] m = "t_flush_into_own_group_a" -> [TGroup2(f) EXCEPT !.trans = (@ \ {<<"rcv", "sus", "wane">>}) \cup {<<"rcv", "rcv2", "wane">>}]
+    [] m = "t_flush_into_own_group_b" -> [TGroup2(f) EXCEPT !.pars = @ \cup {Par("mv", "rate", {}, {})}, !.trans = (@ \ {<<"rcv2", "sus", "wane">>}) \cup {<<"rcv", "rcv2", "mv">>, <<"rcv2", "rcv", "wane">>}]
+    [] m = "t_junction_in_group" -> TJunction(f)
+    [] m = "t_junction_mixed_inflows" -> [TJunction(f) EXCEPT !.pars = @ \cup {Par("mv2", "rate", {}, {})}, !.trans = @ \cup {<<"inf", "jt", "mv2">>}]
+    [] m = "t_junction_mixed_outflows" -> [TJunction(f) EXCEPT !.pars = @ \cup {Par("two", "proportion", {}, {})}, !.trans = @ \cup {<<"jt", "sus", "two">>}]
+    [] m = "t_junction_flush_back" -> [TGroup2(f) EXCEPT !.comps = @ \cup {[name |-> "jt", kind |-> "junction"]}, !.pars = @ \cup {Par("one", "proportion", {}, {})},
+                                                        !.trans = (@ \ {<<"rcv", "sus", "wane">>}) \cup {<<"rcv", "jt", "wane">>, <<"jt", "rcv2", "one">>}]
+    [] m = "t_junction_flush_out" -> [f EXCEPT !.comps = @ \cup {[name |-> "jt", kind |-> "junction"]}, !.pars = @ \cup {Par("one", "proportion", {}, {})},
+                                               !.trans = (@ \ {<<"rcv", "sus", "wane">>}) \cup {<<"rcv", "jt", "wane">>, <<"jt", "sus", "one">>}]
     \* ---- generic mutations, phrased over the anchors of the base (f.anch: a transition parameter tpar, two compartments c1 -> c2 without a
     \*      transition, a function parameter fpar, another parameter p2) so that they apply to library files as well as to the generated base
     [] m = "g_none" -> f
@@ -130,10 +178,10 @@ Mutate(f, m) ==
     [] m \in {"progbook_no_target_compartment", "progbook_no_target_population"} -> [f EXCEPT !.pb.untargeted = {"P1"}]
     [] m \in {"progbook_missing_unit_cost", "progbook_missing_spending", "progbook_outcome_without_baseline", "progbook_bad_coverage_interaction", "progbook_mixed_currencies",
               "progbook_delete_effects_sheet", "progbook_delete_spending_sheet", "progbook_interaction_program_without_outcome"} -> [f EXCEPT !.pb.defects = @ \cup {m}]
-Verdict(m) == IF m \in {"add_residual_outflow", "g_none", "g_add_output_parameter", "progbook_none", "progbook_lowercase_flags", "progbook_zero_outcome", "none", "add_output_parameter", "blank_optional_column", "delete_optional_sheet", "delete_transitions_sheet", "characteristic_on_unlisted_page", "capitalised_units"} THEN "accept" ELSE "reject"
+Verdict(m) == IF m \in {"t_none", "t_group_two_comps", "t_junction_in_group", "t_junction_mixed_outflows", "t_junction_flush_out", "add_residual_outflow", "g_none", "g_add_output_parameter", "progbook_none", "progbook_lowercase_flags", "progbook_zero_outcome", "none", "add_output_parameter", "blank_optional_column", "delete_optional_sheet", "delete_transitions_sheet", "characteristic_on_unlisted_page", "capitalised_units"} THEN "accept" ELSE "reject"
 
 Init == bi \in 1..Len(Bases) /\ mut = "" /\ obs = ""
-Applies(b, m) == b.id = "sirj" \/ m \in GenericMutations
+Applies(b, m) == IF b.id = "sirt" \/ m \in TimedMutations THEN b.id = "sirt" /\ m \in TimedMutations ELSE b.id = "sirj" \/ m \in GenericMutations
 Pick == /\ mut = ""
         /\ \E m \in {x \in Mutations : Applies(Bases[bi], x)} : mut' = m /\ obs' = ToJson([base |-> Bases[bi].id, mutation |-> m, verdict |-> Verdict(m)])
         /\ UNCHANGED bi
